@@ -360,19 +360,53 @@ def run(ctx, report):
             mim_if = n
     if mim_if is None:
         raise AnalysisError('_dis: branch `dib == mim` not found')
-    n_mim = 0
-    for s in mim_if.body:
-        for n in ast.walk(s):
-            if isinstance(n, ast.Subscript) and u(n.value) == 'x86_afs.dict_size':
-                WANT.append(('moffs offset', n, u(n.slice), 'self.admode'))
-                n_mim += 1
-            if isinstance(n, ast.Call) and u(n.func) == 'bin.readbs' and n.args and not (isinstance(n.args[0], ast.Name)):
-                WANT.append(('moffs offset', n, u(n.args[0]), 'l'))
-    if n_mim < 2:
-        R3.violation('moffs', 'mode:moffs:shape', 'the moffs branch no longer derives both the byte count and the unpack format from x86_afs.dict_size[<mode>]', where(arch, mim_if))
-    for s in mim_if.body:
-        if isinstance(s, ast.Assign) and u(s.targets[0]) == 'size':
-            WANT.append(('moffs operand size', s, u(s.value).replace(' ', ''), '[self.opmode,x86_afs.u08][m.modifs[w8]]'))
+    import struct as _struct
+    from ..consteval import Evaluator as _Ev, Obj as _Obj, Native as _Nat, NotConst as _NC
+    A_ = X.afs
+    for opm in ('u32', 'u16'):
+        for adm in ('u32', 'u16'):
+            for byte in (False, True):
+                me = _Obj('self')
+                me.opmode, me.admode = getattr(A_, opm), getattr(A_, adm)
+                st_ = _Obj('struct')
+                st_.calcsize = _Nat(_struct.calcsize)
+                st_.unpack = _Nat(lambda fmt, data: [('VALUE', fmt, data)])
+                bn = _Obj('bin')
+                bn.readbs = _Nat(lambda l=1: ('BYTES', l))
+                mm_ = _Obj('m')
+                mm_.modifs = {E['w8']: byte}
+                scope = {'self': me, 'struct': st_, 'bin': bn, 'm': mm_, 'x86_afs': A_, 'dib_out': [], 'uint32': _Nat(lambda v: v), 'w8': E['w8'], 'u08': A_.u08}
+                ev_ = _Ev({})
+                ev_.env = scope
+                try:
+                    ev_.exec_stmts(mim_if.body, scope)
+                except _NC as e:
+                    raise AnalysisError('_dis: the moffs branch is outside the evaluable subset: %s' % e)
+                inst = 'moffs operand-size %s address-size %s %s' % (opm, adm, 'byte' if byte else 'full')
+                out = scope['dib_out']
+                want_len = 4 if adm == 'u32' else 2
+                want_size = A_.u08 if byte else getattr(A_, opm)
+                problems = []
+                if len(out) != 1 or not isinstance(out[0], dict):
+                    problems.append('does not append exactly one operand')
+                else:
+                    v = out[0].get(A_.imm)
+                    if not (isinstance(v, tuple) and v[0] == 'VALUE' and isinstance(v[2], tuple) and v[2][0] == 'BYTES'):
+                        problems.append('offset is not unpacked from bytes read from the stream')
+                    else:
+                        if v[2][1] != want_len:
+                            problems.append('reads %s offset bytes, the address size %s has %d' % (v[2][1], adm, want_len))
+                        if _struct.calcsize(v[1]) != want_len:
+                            problems.append('unpacks with format %r (%d bytes)' % (v[1], _struct.calcsize(v[1])))
+                    if out[0].get(A_.size) != want_size:
+                        problems.append('operand size is %s, expected %s' % (out[0].get(A_.size), want_size))
+                    if out[0].get(A_.ad) is not True:
+                        problems.append('operand is not marked as memory')
+                if problems:
+                    R3.violation(inst, 'mode:moffs:%s:%s:%s' % (opm, adm, ';'.join(problems)[:60]), 'moffs operand (A0..A3) with operand size %s and address size %s: %s' % (opm, adm, '; '.join(problems)),
+                                 where(arch, mim_if), witness='66 a1 78 56 34 12 must be 6 bytes long')
+                else:
+                    R3.ok(inst, sample='%s: %d offset bytes, operand size %s' % (inst, want_len, want_size))
     # register operands
     for n in walk_no_nested(dis):
         if isinstance(n, ast.If) and u(n.test) == 'm.modifs[w8]' and n.orelse and len(n.body) == 1 and len(n.orelse) == 1:
@@ -422,7 +456,7 @@ def run(ctx, report):
                                  % (tok, opm, adm, scope['dib'], want), where(arch, fixed_if), witness='66 e8 12 34 90 90 must be 4 bytes long' if tok == 's32' else None)
     from collections import Counter
     kinds = Counter(w[0] for w in WANT)
-    for kind_, least in (('ModRM operand and displacement', 2), ('imm/ims immediate', 1), ('moffs offset', 2), ('moffs operand size', 1), ('register operand size', 2)):
+    for kind_, least in (('ModRM operand and displacement', 2), ('imm/ims immediate', 1), ('register operand size', 2)):
         if kinds.get(kind_, 0) < least:
             raise AnalysisError('_dis: expected at least %d site(s) of kind "%s", found %d (the construct was rewritten: re-read and extend the rule)' % (least, kind_, kinds.get(kind_, 0)))
     for what, n, got, want in WANT:
